@@ -437,6 +437,15 @@ func init() {
 		}
 		return x.finish(st, fr, c, timeVal(x, st, c.ret.Type(), x.sym.Fresh("time.truncate", SInt)))
 	})
+	reg("(time.Time).Round", "t.Round(d) for a positive d dividing 24h: t rounded to the nearest multiple of d since the Unix epoch, halfway values up; other d: an arbitrary instant", func(x *Exec, st *State, fr *Frame, c *callCtx) bool {
+		ns, ok := timeNs(x, st, c.args[0])
+		d := x.scalar(st, c.args[1])
+		if dv, isLit := intLitVal(d); ok && isLit && dv > 0 && 86400000000000%dv == 0 {
+			shifted := App(SInt, "+", ns, IntLit(dv/2))
+			return x.finish(st, fr, c, timeVal(x, st, c.ret.Type(), App(SInt, "-", shifted, App(SInt, "mod", shifted, d))))
+		}
+		return x.finish(st, fr, c, timeVal(x, st, c.ret.Type(), x.sym.Fresh("time.round", SInt)))
+	})
 	reg("(time.Time).UnixMilli", "t.UnixMilli(): floor(ns/1e6) of the instant when it was built by the modelled constructors, otherwise an unconstrained int64", func(x *Exec, st *State, fr *Frame, c *callCtx) bool {
 		if ns, ok := timeNs(x, st, c.args[0]); ok {
 			return x.finish(st, fr, c, VScalar{App(SInt, "div", ns, IntLit(1000000))})
